@@ -81,7 +81,8 @@ type Worker struct {
 	deadline   time.Time
 	maxDepth   int
 	fnSeen     map[*ssa.Function]int
-	noMerge    bool
+	noMerge       bool
+	mergeConcrete bool
 	nameCtr    map[string]int
 	prefix     []int // pre-assigned choices (unused in shard mode)
 	states     int64
@@ -90,6 +91,7 @@ type Worker struct {
 	trace      bool
 	stack      []string
 	panicStack []string
+	profile    map[string]int
 	curInstr   string
 }
 
@@ -509,6 +511,9 @@ func (w *Worker) decide(f *frame, c *Term, work *[]*frame) bool {
 		return v
 	}
 	w.branches++
+	if w.profile != nil {
+		w.profile[f.fn.String()+" "+w.pos(f.block.Instrs[f.ip].Pos(), f)]++
+	}
 	ft, mt, ff, mf := w.feasible(f.st, c)
 	switch {
 	case ft && ff:
